@@ -867,3 +867,89 @@ func c15RestoreNotifiesEverySet(c *Ctx, rule string) {
 			return ""
 		}())
 }
+
+// c16TrafficRevivalUnconditional: successful data-UDP traffic revives a dead data-UDP domain whatever its failure
+// streak is (a domain restored dead from a reload snapshot has a zero streak): the markAvailableTraffic call of
+// ReportAvailableTraffic is not conditional on the traffic failure counter.
+func c16TrafficRevivalUnconditional(c *Ctx, rule string) {
+	f := c.fn(rule, "component/outbound/dialer", "Dialer.ReportAvailableTraffic")
+	if f == nil {
+		return
+	}
+	info := f.Info()
+	g := f.Graph()
+	n, bad := 0, ""
+	for _, p := range g.Find(nodeCalls(info, "component/outbound/dialer.Dialer.markAvailableTraffic")) {
+		n++
+		for _, gd := range g.Guards(p) {
+			s := core.ExprStr(gd.Cond)
+			if (strings.Contains(s, "FailCount") || strings.Contains(s, "failCount")) && bad == "" {
+				bad = fmt.Sprintf("the revival at %s is conditional on %s", c.pos(p.Node().Pos()), s)
+			}
+		}
+	}
+	c.R.Checkf(rule, "traffic-success-revives-whatever-the-streak@ReportAvailableTraffic", c.pos(f.Pos()), bad == "" && n >= 1,
+		"successful data-UDP traffic marks a dead data-UDP domain alive independently of the failure counters (%d revival site(s))%s", n, func() string {
+			if bad != "" {
+				return " — VIOLATED: " + bad + ": a domain inherited dead over a reload (counters zeroed, alive=false) or killed through the probe counter has a zero traffic streak and is never revived by traffic, its only way back"
+			}
+			return ""
+		}())
+}
+
+// c16IndexToTypeTotal: every collection slot (the Idx* constants, including the two DNS-over-TCP alias slots)
+// maps to a network type: networkTypeForCollectionIndex has a case for each, directly or through
+// HealthKeyFromCollectionIndex.  A slot without a type loses its alive-transition callback on restore.
+func c16IndexToTypeTotal(c *Ctx, rule string) {
+	f := c.fn(rule, "component/outbound/dialer", "networkTypeForCollectionIndex")
+	h := c.fn(rule, "component/outbound/dialer", "HealthKeyFromCollectionIndex")
+	if f == nil || h == nil {
+		return
+	}
+	pk := c.P.Pkg("component/outbound/dialer")
+	all := map[string]string{}
+	for _, nm := range pk.Types.Scope().Names() {
+		if cst, ok := pk.Types.Scope().Lookup(nm).(*types.Const); ok && strings.HasPrefix(nm, "Idx") {
+			all[cst.Val().ExactString()] = nm
+		}
+	}
+	covered := map[string]bool{}
+	collect := func(fn *core.Func) {
+		info := fn.Info()
+		ast.Inspect(fn.Body, func(m ast.Node) bool {
+			if cc, ok := m.(*ast.CaseClause); ok {
+				for _, e := range cc.List {
+					if tv, ok := info.Types[e]; ok && tv.Value != nil {
+						covered[tv.Value.ExactString()] = true
+					}
+				}
+			}
+			if be, ok := m.(*ast.BinaryExpr); ok && be.Op == token.EQL {
+				for _, e := range []ast.Expr{be.X, be.Y} {
+					if tv, ok := info.Types[e]; ok && tv.Value != nil {
+						covered[tv.Value.ExactString()] = true
+					}
+				}
+			}
+			return true
+		})
+	}
+	collect(f)
+	if len(f.FindCalls(core.ParseRefs("component/outbound/dialer.HealthKeyFromCollectionIndex"))) > 0 {
+		collect(h)
+	}
+	var miss []string
+	for v, nm := range all {
+		if !covered[v] {
+			miss = append(miss, nm)
+		}
+	}
+	sort.Strings(miss)
+	c.R.Checkf(rule, "every-collection-slot-has-a-network-type@networkTypeForCollectionIndex", c.pos(f.Pos()), len(miss) == 0 && len(all) >= 8,
+		"each of the %d collection slots (Idx*) is mapped to a network type%s", len(all), func() string {
+			if len(miss) > 0 {
+				return fmt.Sprintf(" — VIOLATED: no case for %v: the restore walks the alias slots first and delivers the TCP transition through them; with no type the transition is swallowed and no callback fires", miss)
+			}
+			return ""
+		}())
+}
